@@ -198,6 +198,16 @@ Definition leaf_quad (S : Space) (A Aadj : car S -> car S) (selfadj : bool)
        match b with None => g | Some v => sadd S g v end;
      lf_lip := LNan; lf_linear := false |}.
 
+(* MoreauEnvelope(f, sigma): the code implements only the gradient
+   ScalingOperator(1/sigma) - (1/sigma) * f.proximal(sigma); the value (no _call in
+   the code) is the envelope min_y f(y) + |x-y|^2/(2 sigma) attained at the prox *)
+Definition leaf_moreau (S : Space) (fval : car S -> T) (prox : car S -> car S) (sigma : T) : Leaf S :=
+  {| lf_val := fun x => fval (prox x)
+                 + (none_ / (of_Z 2 * sigma)) * sinner S (ssub x (prox x)) (ssub x (prox x));
+     lf_grad := fun x => sadd S (sscal S (none_ / sigma) x)
+                                (sscal S (- none_) (sscal S (none_ / sigma) (prox x)));
+     lf_lip := LNan; lf_linear := false |}.
+
 (* ---- operators for FunctionalComp ---- *)
 Definition op_id (S : Space) : Oper S S :=
   {| op_app := fun x => x; op_dadj := fun _ y => y; op_linear := true |}.
